@@ -126,6 +126,18 @@ func odds() []odd {
 		add("numunit="+u, func(p *profile.Profile) { p.Sample[0].NumUnit = map[string][]string{"bytes": {u}} })
 		add("periodunit="+u, func(p *profile.Profile) { p.PeriodType.Unit = u })
 	}
+	// numeric labels with several values per key and units on some of them only
+	for _, us := range [][]string{{"kilobytes", ""}, {"", "kilobytes"}, {"kb", "mb"}, {"", ""}, {"bytes", "seconds"}} {
+		us := us
+		add("numlabel-units="+strings.Join(us, "|"), func(p *profile.Profile) {
+			p.Sample[0].NumLabel = map[string][]int64{"bytes": {4, 2048}}
+			p.Sample[0].NumUnit = map[string][]string{"bytes": us}
+		})
+	}
+	add("numlabel-zero-with-unit", func(p *profile.Profile) {
+		p.Sample[0].NumLabel = map[string][]int64{"bytes": {0, 0}}
+		p.Sample[0].NumUnit = map[string][]string{"bytes": {"kb", ""}}
+	})
 	add("label-many-values", func(p *profile.Profile) {
 		p.Sample[0].Label = map[string][]string{"k": {"", "a", "a", strings.Repeat("x", 1000)}}
 	})
